@@ -18,6 +18,7 @@ type cliRes struct {
 	Signal         bool // died of a signal (a Go panic exits with status 2 and a trace on stderr)
 	TimedOut       bool
 	Panic          bool // stderr carries a Go panic / fatal error trace
+	CPU            float64 // user+system CPU seconds of the child (rusage)
 }
 
 // runCLI executes the gotree binary built from /repo's working tree.
@@ -35,6 +36,9 @@ func runCLI(c *Ctx, stdin string, args ...string) cliRes {
 	cmd.Env = append(os.Environ(), "GOTRACEBACK=single")
 	err := cmd.Run()
 	r := cliRes{Stdout: so.String(), Stderr: se.String()}
+	if ps := cmd.ProcessState; ps != nil {
+		r.CPU = ps.UserTime().Seconds() + ps.SystemTime().Seconds()
+	}
 	if ctx.Err() != nil {
 		r.TimedOut = true
 	}
